@@ -143,3 +143,16 @@ Print Assumptions C02_fractions_belong_from_rows.
 Print Assumptions C02_outcome_from_rows.
 Print Assumptions C02_sell_all_from_rows.
 Print Assumptions C02_from_rows_nonvacuous.
+
+(** SOURCE TIE (tax engine).  The four branches of the loop of tax_engine._create_unfiltered_gain_and_loss_set (which
+    GainLoss is built: amount and lot; which engine call advances, with which amounts) and the sources of the two
+    iterators are re-read from the source on every run (Generated.v fragment `tax_engine`); interpreted by
+    Model/TaxEngineGen.v they are the model's [loop] and [fractions_of].  A lot iterator over a date-filtered copy of the
+    in-set (lots acquired after the to-date withheld from the engine) stops compiling here. *)
+From RP2V Require Import Model.Txn Model.Pipeline Model.TaxEngineGen Proofs.TaxEngineGenProofs.
+Theorem C02_source_tie_tax_engine_loop :
+  (forall ar lots fuel s evs e l ea la out,
+     loop_gen ar lots fuel s evs e l ea la out = loop ar lots fuel s evs e l ea la out) /\
+  (forall ar sched t, fractions_of_gen ar sched t = fractions_of ar sched t).
+Proof. exact tax_engine_matcher_agrees. Qed.
+Print Assumptions C02_source_tie_tax_engine_loop.
